@@ -522,7 +522,8 @@ def gen_set(rng, known):
     return st
 
 
-def gen_op(rng, mir: Mirror, nsess: int, profile: str, *, maildir: bool = False):
+def gen_op(rng, mir: Mirror, nsess: int, profile: str, *, maildir: bool = False,
+           flat: bool = False, move_within: bool = False):
     """One more operation of a random history."""
     s = rng.randrange(nsess)
     if s in mir.idle:
@@ -534,7 +535,9 @@ def gen_op(rng, mir: Mirror, nsess: int, profile: str, *, maildir: bool = False)
         s = rng.choice(others)
     cur = mir.sel.get(s)
     names = list(mir.names)
-    free = [n for n in NAMES if n not in mir.names]
+    # the fs layout needs the superior to exist before an inferior is created (C11's
+    # business): flat names only there
+    free = [n for n in NAMES if n not in mir.names and not (flat and n > 3)]
 
     def some_name(p_missing=0.08):
         if free and rng.random() < p_missing:
@@ -582,6 +585,11 @@ def gen_op(rng, mir: Mirror, nsess: int, profile: str, *, maildir: bool = False)
             st = ('seq', sorted(rng.sample(range(1, n + 2), rng.randint(1, min(3, n + 1)))))
         else:
             st = gen_set(rng, known)
+        if k == 'move' and move_within and cur:
+            # maildir with a non-default --colon: the delimiter is applied to the INBOX
+            # only, so a MOVE between INBOX and another folder loses the flags in the file
+            # name (reported, not a C04/C17 matter): MOVE stays inside the selected mailbox
+            return (k, s, st, cur[0])
         return (k, s, st, some_name())
     if k == 'expunge':
         return ('expunge', s, gen_set(rng, known) if rng.random() < 0.5 else None)
@@ -598,12 +606,13 @@ def gen_op(rng, mir: Mirror, nsess: int, profile: str, *, maildir: bool = False)
         return ('status', s, some_name())
     if k == 'create':
         return ('create', s, rng.choice(free) if free and rng.random() < 0.85
-                else rng.choice(list(NAMES)))
+                else rng.choice([n for n in NAMES if not (flat and n > 3)]))
     if k == 'delete':
         return ('delete', s, some_name(0.1))
     if k == 'rename':
-        a = rng.choice(names) if rng.random() < 0.9 else rng.choice(list(NAMES))
-        b = rng.choice(free) if free and rng.random() < 0.85 else rng.choice(list(NAMES))
+        allowed = [n for n in NAMES if not (flat and n > 3)]
+        a = rng.choice(names) if rng.random() < 0.9 else rng.choice(allowed)
+        b = rng.choice(free) if free and rng.random() < 0.85 else rng.choice(allowed)
         if 1 <= a <= 3 and a + 4 in mir.names and not 1 <= b <= 3:
             # an inferior would move below an inferior name: outside the modelled names
             return ('noop', s)
@@ -1085,7 +1094,9 @@ async def _batch_async(spec) -> list[dict]:
                 if cnt[0] >= nops:
                     return None
                 cnt[0] += 1
-                return gen_op(rng, mir, nsess, profile, maildir=maildir)
+                return gen_op(rng, mir, nsess, profile, maildir=maildir,
+                              flat=maildir and tuple(spec.get('mcfg', ('++', None)))[0] == 'fs',
+                              move_within=maildir and bool(tuple(spec.get('mcfg', ('++', None)))[1]))
             await one(gen, f'random/{spec["profile"]}/{spec["seed"]}/{k}')
     elif spec['kind'] == 'scripts':
         lib = recent_scripts()
@@ -1355,12 +1366,18 @@ def run_check(ctx, prop: str) -> None:
         specs.append({'kind': 'random', 'seed': rng.getrandbits(40), 'n': per,
                       'profile': 'uid' if full else 'recent'})
     # maildir, reduced volume
-    for _ in range(ctx.scale(3, 12)):
-        specs.append({'kind': 'random', 'seed': rng.getrandbits(40), 'n': ctx.scale(8, 25),
-                      'profile': profile, 'maildir': True, 'maxops': 16})
+    # over its configurations: layout '++' / 'fs', default and non-default info delimiter
+    mcfgs = [('++', None), ('++', '!'), ('fs', None), ('fs', '!')]
+    for k in range(ctx.scale(4, 12)):
+        specs.append({'kind': 'random', 'seed': rng.getrandbits(40), 'n': ctx.scale(6, 25),
+                      'profile': profile, 'maildir': True, 'maxops': 16,
+                      'mcfg': mcfgs[k % 4]})
     specs.append({'kind': 'fixed', 'hists': fixed_histories() + fixed_histories_dict()})
-    specs.append({'kind': 'fixed', 'hists': fixed_histories() + fixed_histories_maildir(),
-                  'maildir': True})
+    for mc in mcfgs:
+        hs = fixed_histories() + fixed_histories_maildir()
+        if mc[0] == 'fs':
+            hs = [h for h in hs if h[0] != 'hierarchy']
+        specs.append({'kind': 'fixed', 'hists': hs, 'maildir': True, 'mcfg': mc})
     # every interleaving of small per-connection scripts
     names = sorted(recent_scripts())
     pairs = [(a, b) for i, a in enumerate(names) for b in names[i:]]
@@ -1444,8 +1461,9 @@ def run_check(ctx, prop: str) -> None:
             ctx.disagreement('uidset', {'case': ucases[i]})
     # ---- maildir writers contending for dovecot-uidlist.lock
     if not full:
-        for variant in ('append+append', 'copy+append', 'three'):
-            res = run(contended_maildir_scenario(variant), timeout=120)
+        for variant, mc in (('append+append', ('++', None)), ('copy+append', ('++', '!')),
+                            ('three', ('fs', None))):
+            res = run(contended_maildir_scenario(variant, mc), timeout=120)
             ctx.count(('contended', variant))
             for clause, what, obs in res['fails']:
                 if clause in clauses:
